@@ -9,6 +9,7 @@ open PyTRS.World PyTRS.Obj PyTRS.Plss
 /-- operations whose outcome should be a function of their own arguments and MasterConfig only: creating objects and the stateless conversions -/
 def isProbe : Op → Bool
   | .newDesc .. => true | .newTract .. => true | .warm _ => true | .toDict _ => true | .toDictObj _ => true | .findTwprge .. => true
+  | .fromTwprgesec .. => true
   | _ => false
 
 /-- outputs compared up to the creation numbers of the tracts they contain -/
@@ -94,6 +95,9 @@ theorem probe_step_shift (w1 w2 : World.World) (k : Nat) (op : Op) (hp : isProbe
   | findTwprge text ns ew pre ocr =>
     simp only [step, hmc]
     cases Plss.findTwprge w2.mc text ns ew pre ocr <;> rfl
+  | fromTwprgesec twp rge sec ns ew =>
+    simp only [step, hl1, hl2, hmc]
+    cases TRS.constructTrs twp rge sec (ns.getD w2.mc.ns) (ew.getD w2.mc.ew) false <;> rfl
   | newDesc id text layout cfg pq src wait =>
     simp only [step, hl1, hl2, hu, ← hmc]
     rw [descInit_shift]
